@@ -7,6 +7,7 @@ import (
 	"fmt"
 	"runtime/debug"
 	"sort"
+	"strings"
 	"testing"
 
 	"github.com/ethereum/go-ethereum/common"
@@ -27,17 +28,16 @@ type c07Case struct {
 // NodeSet is applied to a path-scheme and to a hash-scheme copy of the base image.
 func TestVerif_C07_commits(t *testing.T) {
 	mc.Run(t, "C07", func(r *mc.R) {
-		defer debug.SetGCPercent(debug.SetGCPercent(400))
+		defer debug.SetGCPercent(debug.SetGCPercent(300))
 		allBases := mc.Pick(r, false, true)
 		r.Rule("alphabets K1 (2-byte keys, deep shared prefixes), KB (2-byte, 4 root children), KB32 (32-byte) x committed base set (quick: 64 subsets x " +
-			"value patterns {all short, all long, alternating}; thorough: all 729 assignments) x every modification in {untouched,v1,v2,empty}^6 (4096) " +
-			"applied by Update calls (K1, KB) or by one UpdateBatch call (KB, KB32), then Commit; distinct = distinct (alphabet, mode, base set, new set); " +
+			"value patterns {alternating; K1 also all long}, KB32 modifications over {untouched,v2,empty} only; thorough: all 729 assignments) x every modification in {untouched,v1,v2,empty}^6 (4096) " +
+			"applied by Update calls (K1; thorough also KB) or by one UpdateBatch call (KB, KB32), then Commit; distinct = distinct (alphabet, mode, base set, new set); " +
 			"plus, for each of the 3^6 sets of K1,K2,KB,KB32: StackTrie OnTrieNode emissions vs the nodes committed by a fresh trie vs the reference nodes")
 		r.Assume("reference = independent Yellow-Paper MPT (own RLP, hex-prefix, embedding rule): root and the exact set of stored nodes path->blob (root plus every node >= 32 bytes)")
 		r.Assume("the base store is the reference image of the base set; every commit is checked to reproduce the reference image exactly (path scheme), so by induction no other image is reachable through commits")
 		r.Assume("store semantics: path scheme = write blob at path / delete at path; hash scheme = write blob under its hash, never delete")
 		bases := c06BaseModels(allBases)
-		r.Bound("bases", len(bases))
 		r.Bound("modification_space_per_base", 4096)
 		type shard struct {
 			a    *c06Alpha
@@ -49,9 +49,15 @@ func TestVerif_C07_commits(t *testing.T) {
 			a    *c06Alpha
 			mode string
 		}{{c06AlphaK1(), "update"}, {c06AlphaKB(), "update"}, {c06AlphaKB(), "batch"}, {c06AlphaKB32(), "batch"}} {
+			if !allBases && cfg.a.Name == "KB" && cfg.mode == "update" {
+				continue // quick: Update histories on K1, UpdateBatch on KB/KB32
+			}
 			for _, b := range bases {
 				if !allBases && cfg.a.Name == "KB32" && !c06Alternating(b) {
 					continue // 32-byte keys: leaves are hashed nodes whatever the value; quick keeps one value pattern per subset
+				}
+				if !allBases && (c06AllShort(b) || (cfg.a.Name == "KB" && !c06Alternating(b))) {
+					continue // quick: K1 with alternating and all-long values, KB with alternating values
 				}
 				shards = append(shards, shard{cfg.a, b, cfg.mode})
 			}
@@ -78,6 +84,9 @@ func TestVerif_C07_commits(t *testing.T) {
 						final[k] = 0
 					}
 				}
+				if !allBases && a.Name == "KB32" && strings.ContainsRune(string(desc), '1') {
+					continue // quick, 32-byte keys: both values give hashed leaves; only {untouched, v2, empty}^6 (729 modifications)
+				}
 				order := "asc"
 				if bi&1 == 1 {
 					order = "desc"
@@ -86,7 +95,7 @@ func TestVerif_C07_commits(t *testing.T) {
 				c := c07Case{a.Name, sh.base.String(), sh.mode, string(desc), order}
 				var outcome string
 				r.Case(c, func() error {
-					pstore := c06NewMapStore(c06Path, baseRef.nodes)
+					pstore := c06NewMapStore(c06Path, baseRef)
 					tr, err := New(TrieID(baseRef.root), pstore)
 					if err != nil {
 						return fmt.Errorf("open base: %v", err)
@@ -118,7 +127,7 @@ func TestVerif_C07_commits(t *testing.T) {
 					if root != finalRef.root {
 						return fmt.Errorf("Commit root %x, reference root of %s is %x", root, final, finalRef.root)
 					}
-					hstore := c06NewMapStore(c06Hash, baseRef.nodes)
+					hstore := c06NewMapStore(c06Hash, baseRef)
 					if set == nil {
 						outcome = "nodeset:nil"
 					} else {
@@ -145,14 +154,18 @@ func TestVerif_C07_commits(t *testing.T) {
 					if err := c06CheckImage(c06Hash, hstore.m, finalRef.nodes); err != nil {
 						return err
 					}
-					for _, st := range []*c06MapStore{pstore, hstore} {
-						t2, err := New(TrieID(root), st)
-						if err != nil {
-							return fmt.Errorf("reopen new root from the %s store: %v", st.sch, err)
-						}
-						if err := c06CheckRead(t2, a, final); err != nil {
-							return fmt.Errorf("new root read from the %s store: %v", st.sch, err)
-						}
+					// The path image is now known to be identical to the reference image; the new root is
+					// read back completely (Hash, Get, full iteration) from the hash store, whose content
+					// is a superset and is only addressed through the hashes found while descending.
+					t2, err := New(TrieID(root), hstore)
+					if err != nil {
+						return fmt.Errorf("reopen new root from the hash store: %v", err)
+					}
+					if err := c06CheckRead(t2, a, final); err != nil {
+						return fmt.Errorf("new root read from the hash store: %v", err)
+					}
+					if _, err := New(TrieID(root), pstore); err != nil {
+						return fmt.Errorf("reopen new root from the path store: %v", err)
 					}
 					return nil
 				})
@@ -264,7 +277,7 @@ func TestVerif_C07_commits(t *testing.T) {
 // under the path scheme and under the hash scheme.
 func TestVerif_C07_generations(t *testing.T) {
 	mc.Run(t, "C07", func(r *mc.R) {
-		defer debug.SetGCPercent(debug.SetGCPercent(400))
+		defer debug.SetGCPercent(debug.SetGCPercent(300))
 		depth := mc.Pick(r, 5, 7)
 		r.Rule("BFS over operation sequences from the empty trie, any number of commit generations within the depth; alphabet = Update(k,v1|v2) x6, " +
 			"Update(k,empty) x6, Delete(k) x6, hash+iterate, getall, copy, commit+reopen, UpdateBatch(all keys = v1 | v2 | empty) (31 ops); state = (model set, " +
